@@ -17,11 +17,49 @@ fn w(f: impl Fn(&mut Weights)) -> Weights {
     x
 }
 
+/// A new size, often in a particular relation to the current one (+-1, double, half, one dimension only).
+fn next_size(r: &mut Rng, c0: usize, r0: usize, maxc: usize, maxr: usize) -> (usize, usize) {
+    let rel = |r: &mut Rng, x: usize, max: usize| -> usize {
+        let v = match r.n(6) {
+            0 => x + 1,
+            1 => x.saturating_sub(1),
+            2 => x * 2,
+            3 => x / 2,
+            4 => x,
+            _ => r.range(1, max),
+        };
+        v.max(1).min(max.max(2) * 2)
+    };
+    match r.n(5) {
+        0 => {
+            if r.chance(1, 2) {
+                (r.range(1, maxc + 3), r0)
+            } else {
+                (c0, r.range(1, maxr + 2))
+            }
+        }
+        1 | 2 => (rel(r, c0, maxc + 3), rel(r, r0, maxr + 2)),
+        _ => (r.range(1, maxc + 3), r.range(1, maxr + 2)),
+    }
+}
+
 fn maybe_resize(s: &mut S, r: &mut Rng, slot: usize, maxc: usize, maxr: usize, num: u64, den: u64) -> bool {
     if r.chance(num, den) {
-        let (c, rr) = match r.n(4) {
+        let (c0, r0) = s.vt(slot).size();
+        let rel = |r: &mut Rng, x: usize, max: usize| -> usize {
+            // sizes in a particular relation to the current one: +-1, double, half, same
+            let v = match r.n(6) {
+                0 => x + 1,
+                1 => x.saturating_sub(1),
+                2 => x * 2,
+                3 => x / 2,
+                4 => x,
+                _ => r.range(1, max),
+            };
+            v.max(1).min(max.max(2) * 2)
+        };
+        let (c, rr) = match r.n(5) {
             0 => {
-                let (c0, r0) = s.vt(slot).size();
                 // width-only or height-only change
                 if r.chance(1, 2) {
                     (r.range(1, maxc + 3), r0)
@@ -29,6 +67,7 @@ fn maybe_resize(s: &mut S, r: &mut Rng, slot: usize, maxc: usize, maxr: usize, n
                     (c0, r.range(1, maxr + 2))
                 }
             }
+            1 | 2 => (rel(r, c0, maxc + 3), rel(r, r0, maxr + 2)),
             _ => (r.range(1, maxc + 3), r.range(1, maxr + 2)),
         };
         let consume = !r.chance(1, 8);
@@ -404,7 +443,8 @@ fn ep_c10(s: &mut S, r: &mut Rng, maxc: usize, maxr: usize) {
         if !s.alive(slot) {
             return;
         }
-        let (nc, nr) = (r.range(1, maxc + 3), r.range(1, maxr + 2));
+        let (c0, r0) = s.vt(slot).size();
+        let (nc, nr) = next_size(r, c0, r0, maxc, maxr);
         s.resize(slot, nc, nr, true);
         if r.chance(1, 3) {
             let k = r.range(1, 4);
